@@ -7,7 +7,7 @@ import time
 VERIF = os.path.dirname(os.path.dirname(os.path.abspath(__file__)))
 
 
-def run_witnesses(pid, obligations, repo):
+def run_witnesses(pid, obligations, repo, filters=None):
     """Runs `cargo +nightly test --doc` on the witness crate (path dependency on the repo under analysis).
     Each doctest is a compile_fail,E0xxx snippet or its compiling twin; nothing of the repo is executed beyond
     rustdoc compiling (and, for the twins, running an empty main)."""
@@ -25,7 +25,8 @@ def run_witnesses(pid, obligations, repo):
     env["CARGO_NET_OFFLINE"] = "true"
     env["CARGO_TARGET_DIR"] = os.path.join(VERIF, "build", "target-witness")
     t0 = time.time()
-    p = subprocess.run(["cargo", "+nightly", "test", "--doc", "--offline", "--", pid.lower()], cwd=work, env=env,
+    filters = filters or [pid.lower()]
+    p = subprocess.run(["cargo", "+nightly", "test", "--doc", "--offline", "--"] + list(filters), cwd=work, env=env,
                        stdout=subprocess.PIPE, stderr=subprocess.STDOUT, text=True)
     out = p.stdout
     passed = [l for l in out.splitlines() if l.startswith("test ") and l.rstrip().endswith("ok")]
@@ -36,10 +37,10 @@ def run_witnesses(pid, obligations, repo):
     if p.returncode != 0 and not failed:
         ctx.ob("witness-harness", False, "witness crate failed to build/run: " + out[-600:])
     for l in passed:
-        ctx.ob("witness|" + l.split()[1], True, "witness holds", [l.strip()])
+        ctx.ob("witness|" + l.split(" - ")[1].split(" ")[0], True, "type-level witness holds (%s)" % ("compile_fail with the expected error code" if "compile fail" in l else "compiling twin"), [l.strip()])
     for l in failed:
-        ctx.ob("witness|" + l.split()[1], False, "type-level witness violated: " + l.strip(), [l.strip()])
-    if not passed and not failed:
+        ctx.ob("witness|" + l.split(" - ")[1].split(" ")[0], False, "type-level witness violated: " + l.strip(), [l.strip()])
+    if len(passed) + len(failed) < 2 * len(filters):
         ctx.ob("witness-floor", False, "no witness ran for " + pid)
     shutil.rmtree(work, ignore_errors=True)
     return {"witnesses_run": len(passed) + len(failed), "witness_s": round(time.time() - t0, 1)}
